@@ -1638,6 +1638,10 @@ pub fn c12_many(seed: u64) -> Scenario {
         connects.push(ConnectScript { node, to, at_ms, cancel_after_ms: None, side: Side { w, r: rd } });
     }
     let mut accepts = vec![];
+    // some runs: the applications run accept under a time-out (the usual accept loop): abandoned
+    // accept calls sit in front of live ones when a request arrives
+    let abandon = r.chance(0.3);
+    let mut accept_cancels = 0i64;
     for (node, cnt) in per_node.iter().enumerate() {
         let n_acc = match r.below(6) {
             0 => cnt.saturating_sub(1),
@@ -1653,7 +1657,13 @@ pub fn c12_many(seed: u64) -> Scenario {
             w.push(WOp::WaitRead(u64::MAX));
             w.push(WOp::Shutdown);
             let rd = vec![ROp::Read { n: u64::MAX, buf: r.log_range(64, 16_384) as usize, vectored: r.chance(0.2) }];
-            accepts.push(AcceptScript { node, at_ms, cancel_after_ms: None, side: Side { w, r: rd } });
+            accepts.push(AcceptScript { node, at_ms, cancel_after_ms: None, side: Side { w: w.clone(), r: rd.clone() } });
+            if abandon && r.chance(0.3) {
+                // an extra call that gives up early, queued at about the same time
+                let at = if r.chance(0.7) { at_ms.saturating_sub(r.range(0, 3)) } else { r.range(0, 50) };
+                accept_cancels += 1;
+                accepts.push(AcceptScript { node, at_ms: at, cancel_after_ms: Some(r.range(0, 30)), side: Side { w, r: rd } });
+            }
         }
     }
     let mut net = NetCfg { seed: r.next(), latency_us: pick_latency_us(&mut r).min(80_000), ..Default::default() };
@@ -1665,6 +1675,7 @@ pub fn c12_many(seed: u64) -> Scenario {
     }
     let mut params = std::collections::BTreeMap::new();
     params.insert("fault_free".to_string(), fault_free as i64);
+    params.insert("accept_cancels".to_string(), accept_cancels);
     params.insert("acceptor_bytes".to_string(), b_acc as i64);
     Scenario {
         family: "c12_many".to_string(),
@@ -1767,13 +1778,19 @@ pub fn c13_pairing(seed: u64) -> Scenario {
         net.jitter_us = r.range(0, 10_000);
         net.drop_p = *r.pick(&[0.0, 0.01, 0.03]);
         net.dup_p = *r.pick(&[0.0, 0.05, 0.2]);
+        // duplication and reordering only: nothing is lost, every request arrives (some twice)
+        if r.chance(0.4) {
+            net.drop_p = 0.0;
+            net.dup_p = *r.pick(&[0.05, 0.2, 0.5]);
+        }
     }
     let mut params = std::collections::BTreeMap::new();
     params.insert("loss_free".to_string(), loss_free as i64);
+    params.insert("drop_free".to_string(), (net.drop_p == 0.0) as i64);
     params.insert("acceptor_bytes".to_string(), b_acc as i64);
     params.insert("accept_cancels".to_string(), accept_cancels);
     params.insert("connect_cancels".to_string(), connect_cancels);
-    Scenario {
+    let mut sc = Scenario {
         family: "c13_pairing".to_string(),
         seed,
         net,
@@ -1786,7 +1803,10 @@ pub fn c13_pairing(seed: u64) -> Scenario {
         script_cap_ms: 60_000,
         settle_ms: 3_000,
         params,
-    }
+    };
+    let hsh = sc.app_scripts_hash();
+    sc.params.insert("app_scripts_hash".to_string(), hsh);
+    sc
 }
 
 // ------------------------------------------------------------------------------------------
